@@ -10,7 +10,7 @@ every file below a scratch root, taken with os.walk before and after the call):
                         configuration (compared as plain nested dicts, metadata ignored) - also for configurations
                         that were loaded from separate sub-files, in single-file and multi-file mode.
 
-Enumerated: 10 (12 thorough) configuration scenarios over 5 (6 thorough) parser shapes (flat typed values, dict/sub-parser sub-files
+Enumerated: 11 (13 thorough) configuration scenarios over 6 (7 thorough) parser shapes (flat typed values, dict/sub-parser sub-files
 - in sub-directories, nested two deep, given on the command line, with equal base names, colliding with the target
 name -, sub-parser with restricted/enum values, subclass config, save_path_content, json-schema + jsonnet)
 x {single-file, multi-file} x overwrite on/off x {fresh output directory with nothing / the main file / one sub-file
@@ -62,6 +62,15 @@ def shape_flat():
     p.add_argument("--c", type=Col, default=Col.red)
     p.add_argument("--g.x", type=int, default=0)
     p.add_argument("--g.y", type=str, default="y")
+    p.add_argument("--free")
+    return p
+
+
+def shape_nullable():
+    p = ArgumentParser(exit_on_error=False)
+    p.add_argument("--cfg", action=ActionConfigFile)
+    p.add_argument("--a", type=Optional[int], default=5)  # null is a value here, and it is not the default
+    p.add_argument("--b", type=int, default=1)
     p.add_argument("--free")
     return p
 
@@ -164,6 +173,7 @@ def scenarios():
         Scenario("flat", shape_flat, argv=["--a=3", "--s=hello", "--l=[1, 2]", "--p=2", "--o=1.5", "--c=blue", "--g.x=7", "--g.y=why"],
                  invalid=[("a", "bad"), ("l", [1, "x"]), ("p", -1), ("o", "zz"), ("c", "green"), ("g.x", "q")], unser=[("free", "OBJECT")]),
         Scenario("flat-defaults", shape_flat, argv=[], invalid=[("g.x", "q")], unser=[("free", "OBJECT")]),
+        Scenario("explicit-null-over-a-default", shape_nullable, argv=["--a=null", "--b=2"], invalid=[("b", "bad")], unser=[("free", "OBJECT")]),
         Scenario("subfiles", shape_sub, files=SUB_FILES, invalid=SUB_INVALID, unser=SUB_UNSER),
         Scenario("subfiles-in-subdirs", shape_sub, files={"main.yaml": "a: 2\nd: x/d.yaml\ne: y/e.json\nsub: deep/er/sub.yaml\n", "x/d.yaml": "x: 1\n", "y/e.json": '{"z": 3}',
                                                           "deep/er/sub.yaml": "n: 5\ndd: ../dd.yaml\n", "deep/dd.yaml": "k: 9\n"}, invalid=[("sub.n", "bad")], unser=[("sub.free", "OBJECT")]),
@@ -458,7 +468,7 @@ def main():
         h.note("counters: " + ", ".join(f"{k}={v}" for k, v in sorted(r.stats.items())) + f", injected failures reached: {hits}")
         h.note("not asserted (statement is silent): files created before save refuses to overwrite a later sub-file; partial state after a failing write (injected OSError in open); "
                "in-place multi-file save with save_path_content and overwrite=True empties the referenced file")
-    sys.exit(h.finish(exhaustive=True, bound=f"{'12' if h.thorough else '10'} configuration scenarios over {'6' if h.thorough else '5'} parser shapes x single/multi-file x overwrite on/off x "
+    sys.exit(h.finish(exhaustive=True, bound=f"{'13' if h.thorough else '11'} configuration scenarios over {'7' if h.thorough else '6'} parser shapes x single/multi-file x overwrite on/off x "
                       f"{'6' if h.thorough else '5'} pre-existing-file layouts x (valid | each listed key invalid | each untyped position unserialisable | failure injected at every call <= 8 of validate, dump_using_format, open)"))
 
 
